@@ -286,6 +286,19 @@ func constArr(s Sort, v *Term) *Term {
 }
 
 func tArith(op string, a, b *Term) *Term {
+	if op == "+" {
+		if x, ok := isIntLit(a); ok && x == 0 {
+			return b
+		}
+		if y, ok := isIntLit(b); ok && y == 0 {
+			return a
+		}
+	}
+	if op == "-" {
+		if y, ok := isIntLit(b); ok && y == 0 {
+			return a
+		}
+	}
 	if x, ok := isIntLit(a); ok {
 		if y, ok2 := isIntLit(b); ok2 {
 			switch op {
